@@ -459,6 +459,7 @@ type vhSM struct {
 	viewsLeft        int  // how many more view updates with new numbers may be delivered (<0: no limit)
 	laterEntrancePHs bool // entrance responses after the first of a life may carry headers too
 	strictPanics     bool // a panic inside the state machine is a violation (C09) instead of the end of the path
+	gen              *tmconsensus.Genesis // genesis handed to the state machine (nil: the kit's own)
 
 	// ghost
 	life      int // process life (restarts)
@@ -487,11 +488,33 @@ type vhSM struct {
 	oldTimers   []*vhTimerRec
 }
 
-func vhNewSM(participating bool) *vhSM {
+func vhNewSM(participating bool) *vhSM { return vhNewSMOn(participating, nil, nil) }
+
+// vhNewSMOn: fs / gen non-nil: the chain was initialised by somebody else (the real engine code
+// in the C10 engine-level harness): the finalization store already holds the pseudo-finalization
+// and gen is the genesis to hand to the state machine.
+func vhNewSMOn(participating bool, fs *tmmemstore.FinalizationStore, gen *tmconsensus.Genesis) *vhSM {
 	e := &vhSM{ctx: context.Background(), participating: participating}
 	e.keys = vkit.OkKeys(2)
 	e.vs = vkit.ValSet(e.keys, []uint64{1, 1})
 	e.as = &vhActionStore{e: e, ActionStore: tmmemstore.NewActionStore()}
+	e.gen = gen
+	if fs != nil {
+		e.fs = fs
+		e.ss = tmmemstore.NewStateMachineStore()
+		var key gcrypto.PubKey = e.keys[0]
+		e.signer = &vhSigner{e: e, key: key}
+		e.rounds = map[vhHR]*vhRound{}
+		e.avail = verifrt.U64("avail")
+		verifrt.Assume(e.avail >= 1)
+		e.th = vhThresholdsOf(e.avail)
+		e.entrancePHs = 1
+		e.symEntrances = 1
+		e.viewsLeft = -1
+		e.evTimerKind = -1
+		e.boot()
+		return e
+	}
 	e.fs = tmmemstore.NewFinalizationStore()
 	e.ss = tmmemstore.NewStateMachineStore()
 	var key gcrypto.PubKey = e.keys[0]
@@ -521,6 +544,9 @@ func vhNewSM(participating bool) *vhSM {
 }
 
 func (e *vhSM) genesis() tmconsensus.Genesis {
+	if e.gen != nil {
+		return *e.gen
+	}
 	return tmconsensus.Genesis{
 		ChainID:             "vh",
 		InitialHeight:       vhInitialHeight,
@@ -1017,7 +1043,7 @@ func (e *vhSM) deliver(k int) bool {
 		e.alive = false
 		return false
 	}
-	if ok && replayedFin {
+	if ok && replayedFin && e.strictPanics {
 		// the driver finalized a header the mirror had already committed: nothing else
 		// can move the state machine on, so it has to enter the next height now
 		verifrt.Assert(e.cur.h == h0+1, "SM:finalization-of-a-replayed-header-enters-the-next-height")
@@ -1265,3 +1291,55 @@ func (e *vhSM) runStartAny(groups int) {
 
 // vhEvents: every event kind except the general view update (see runStartAny).
 func vhEvents() []int { return vhAllEvents }
+
+// ---- probe API for the engine-level restart harness (C10, package tmengine)
+
+// VHProbe lets a harness outside this package run a real state machine on stores it prepared
+// with the real engine code, let it die, and restart it with the genesis the engine hands over.
+type VHProbe struct{ e *vhSM }
+
+// VHProbeHashScheme / VHProbeValidators: what the chain of the probe is built on.
+func VHProbeHashScheme() tmconsensus.HashScheme { return vhHashScheme{} }
+func VHProbeValidators() tmconsensus.ValidatorSet {
+	return vkit.ValSet(vkit.OkKeys(2), []uint64{1, 1})
+}
+
+func VHNewProbe(g tmconsensus.Genesis, fs *tmmemstore.FinalizationStore) *VHProbe {
+	vhOpts()
+	e := vhNewSMOn(true, fs, &g)
+	e.symEntrances = 0
+	e.laterEntrancePHs = true
+	return &VHProbe{e: e}
+}
+
+// FirstLife starts the state machine and delivers the first n events of [view with new
+// precommit numbers, driver finalization, step timer]; it reports where the state machine is
+// when the process dies, and whether the finalization of that height is already stored.
+func (p *VHProbe) FirstLife(n int) (h uint64, r uint32, finalized, ok bool) {
+	e := p.e
+	if !e.start() {
+		return 0, 0, false, false
+	}
+	e.check(chkC08)
+	script := [][]int{{evViewPC}, {evFinalization}, {evTimer}}
+	for i := 0; i < n && i < len(script) && e.alive; i++ {
+		e.run(chkC08, script[i], 1)
+	}
+	if !e.alive {
+		return 0, 0, false, false
+	}
+	_, _, _, _, err := e.fs.LoadFinalizationByHeight(e.ctx, e.cur.h)
+	return e.cur.h, e.cur.r, err == nil, true
+}
+
+// Restart: a new state machine value on the same stores, given g as its genesis. The restart
+// rules of C08 (resume the round, or height+1 round 0 after a stored finalization) are checked.
+func (p *VHProbe) Restart(g tmconsensus.Genesis) (up bool, h uint64, r uint32) {
+	e := p.e
+	e.gen = &g
+	up = e.restart()
+	if up {
+		e.check(chkC08)
+	}
+	return up, e.cur.h, e.cur.r
+}
